@@ -12,7 +12,7 @@ SIDE = st.sampled_from([1, 1, 2, 2, 3, 3, 4])
 
 @st.composite
 def shapes(draw, min_rank=0, max_rank=4, max_elems=120, side=SIDE):
-    r = draw(st.integers(min_rank, max_rank))
+    r = draw(st.sampled_from([k for k in (0, 1, 1, 2, 2, 2, 3, 3, 3, 4, 4, 5) if min_rank <= k <= max_rank]))
     shp = []
     n = 1
     for _ in range(r):
@@ -57,21 +57,21 @@ def _size(shape):
 def grid(shape, lo=-24, hi=24, denom=8.0):
     """values k/denom, k in [lo, hi]; returned as flat list of floats"""
     n = _size(shape)
-    return hnp.arrays(np.int16, (n,), elements=st.integers(lo, hi)).map(
+    return hnp.arrays(np.int16, (n,), elements=st.integers(lo, hi), fill=st.nothing()).map(
         lambda a: (a.astype(np.float64) / denom).tolist())
 
 
 def grid_away_from_zero(shape, lo=1, hi=24, denom=8.0):
     """|x| in [lo/denom, hi/denom], either sign"""
     n = _size(shape)
-    return st.tuples(hnp.arrays(np.int16, (n,), elements=st.integers(lo, hi)),
-                     hnp.arrays(np.bool_, (n,))).map(
+    return st.tuples(hnp.arrays(np.int16, (n,), elements=st.integers(lo, hi), fill=st.nothing()),
+                     hnp.arrays(np.bool_, (n,), fill=st.nothing())).map(
         lambda t: (np.where(t[1], -1.0, 1.0) * t[0].astype(np.float64) / denom).tolist())
 
 
 def grid_positive(shape, lo=2, hi=24, denom=8.0):
     n = _size(shape)
-    return hnp.arrays(np.int16, (n,), elements=st.integers(lo, hi)).map(
+    return hnp.arrays(np.int16, (n,), elements=st.integers(lo, hi), fill=st.nothing()).map(
         lambda a: (a.astype(np.float64) / denom).tolist())
 
 
@@ -86,7 +86,7 @@ def distinct(shape, denom=8.0):
 
 def upstream(n_pool=24):
     """pool of upstream-gradient values, cycled to the size of the output"""
-    return hnp.arrays(np.int16, (n_pool,), elements=st.integers(-16, 16)).map(
+    return hnp.arrays(np.int16, (n_pool,), elements=st.integers(-16, 16), fill=st.nothing()).map(
         lambda a: (a.astype(np.float64) / 8.0).tolist())
 
 
